@@ -86,3 +86,24 @@ func (s *EntityComponentStore) VerifSubscriptions() map[uint32][]uint32 {
 	}
 	return out
 }
+
+// VerifSessionGaugeByKey returns the session_count gauge per app-key label.
+func VerifSessionGaugeByKey() map[string]float64 {
+	ch := make(chan prometheus.Metric, 1024)
+	hagallSessionCount.Collect(ch)
+	close(ch)
+	out := map[string]float64{}
+	for m := range ch {
+		var d dto.Metric
+		if err := m.Write(&d); err == nil {
+			k := ""
+			for _, l := range d.GetLabel() {
+				if l.GetName() == appKeyLabel {
+					k = l.GetValue()
+				}
+			}
+			out[k] += d.GetGauge().GetValue()
+		}
+	}
+	return out
+}
